@@ -113,6 +113,9 @@ def bfs(spec_factory, depth, seed=0, jobs=1, st=None, max_states=None, collect=N
         parts = chunks(frontier, max(1, jobs * 4)) if len(frontier) > 8 else [frontier]
         for pst, out in pmap(_expand, [(spec_factory, p) for p in parts], jobs if len(parts) > 1 else 1):
             st.merge(pst)
+            if max_states and len(seen) > max_states:
+                capped = True
+                break                   # (the pool is torn down by pmap; nothing more is expanded)
             for key, root, hist in out:
                 # the canonical key determines the futures whatever root the state was reached from
                 k = key
@@ -126,7 +129,7 @@ def bfs(spec_factory, depth, seed=0, jobs=1, st=None, max_states=None, collect=N
                 if len(hist) <= 6 and len(st.samples) < 5 and len(hist) >= min(3, depth):
                     st.samples.append({'root': root, 'history': hist})
         frontier = nxt
-        if max_states and len(seen) > max_states:
+        if capped or (max_states and len(seen) > max_states):
             capped = True
             break
     for k in seen:
